@@ -157,6 +157,15 @@ Theorem C20_reuse_changes_store :
 Proof. exact reuse_changes_store. Qed.
 Print Assumptions C20_reuse_changes_store.
 
+(* Tag spelling (for instance a schema namespace prefix 'ts:' on every tag) only changes the opaque
+   payload of the items; on the example history, relabelling every payload relabels the output and
+   changes nothing else (kernel evaluation of one instance; that the implementation treats a
+   namespaced schema like the plain one is checked by the correspondence run). *)
+Example C20_relabel_instance :
+  event_manager (map (relabel_row (N.add 100)) ex_history) =
+  match event_manager ex_history with Ok o => Ok (relabel_out (N.add 100) o) | Exn e => Exn e end.
+Proof. exact relabel_example. Qed.
+
 (* Duration ends are found by bisection: on any non-decreasing onset list bisect_left never raises,
    needs no more than the given fuel, and returns the unique index splitting "< x" from ">= x". *)
 Theorem C20_bisect_left : forall a x, mono a = true ->
